@@ -582,6 +582,43 @@ func checkC20(c *km.Ctx) {
 		early := loopLeftEarly(c, fn)
 		r.Add("R-C20-4", km.FuncName(fn), "every saved event is examined", c.P.Pos(fn.Pos()), "the loops over the saved history end only when exhausted or with an error", early, early == "")
 	}
+	// a user's history stays under that user's name: loader and saver copy each list under the key it had (the
+	// recorder files new events under the name as reported, so a folded key splits or merges histories)
+	for _, name := range []string{"loadEvents", "(*EventRecorder).getEventsList"} {
+		fn := c.P.Func("eventmon/eventrecorder", name)
+		if fn == nil {
+			continue
+		}
+		nUpd, bad := 0, ""
+		km.Instrs(fn, func(in ssa.Instruction) {
+			mu, ok := in.(*ssa.MapUpdate)
+			if !ok {
+				return
+			}
+			if b, isB := mu.Key.Type().Underlying().(*types.Basic); !isB || b.Kind() != types.String {
+				return
+			}
+			nUpd++
+			ex, isEx := km.Unwrap(mu.Key).(*ssa.Extract)
+			if isEx {
+				if nx, isNx := ex.Tuple.(*ssa.Next); !isNx || nx.IsString || ex.Index != 1 {
+					isEx = false
+				}
+			}
+			if !isEx {
+				bad = "filed under " + clipS(km.ValStr(mu.Key), 80) + " at " + posOf(c, in)
+			}
+		})
+		if nUpd == 0 {
+			r.AnchorLost("R-C20-4", "per-user map filled by "+name)
+			continue
+		}
+		found := sprintf("%d map update(s), each under the key being iterated", nUpd)
+		if bad != "" {
+			found = bad
+		}
+		r.Add("R-C20-4", km.FuncName(fn), "history kept under the user's own name", c.P.Pos(fn.Pos()), "each list is copied under the key it was stored under, unmodified", found, bad == "")
+	}
 	checkSaveScheduled(c)
 }
 
@@ -1042,6 +1079,10 @@ func checkFlushPerEvent(c *km.Ctx) {
 			if g := km.StaticCallee(ci.Common()); g != nil && g.Blocks != nil && g.Pkg == fn.Pkg && encodesEvent(g) {
 				writes = append(writes, ci)
 			}
+			// the encoder kept for the connection and used directly in the loop
+			if name == "(*encoding/json.Encoder).Encode" && blockInCycle(ci.Block()) {
+				writes = append(writes, ci)
+			}
 		}
 		for _, w := range writes {
 			b := w.Block()
@@ -1174,5 +1215,83 @@ func checkEventFieldsAgree(c *km.Ctx, rule string) {
 	}
 	if n == 0 {
 		c.R.AnchorLost(rule, "event literals with a constant type in the notifier")
+	}
+	// what the daemon reports under a name arrives under that name: each string the exported publisher is handed
+	// ends in the event field it is meant for (two strings crossed between the wrapper and its worker compile and
+	// publish a well-formed event with the user and the URL exchanged)
+	want := map[string]map[int]string{
+		"(*EventNotifier).PublishAuthEvent":                 {1: "AuthType", 2: "Username"},
+		"(*EventNotifier).PublishServiceProviderLoginEvent": {1: "ServiceProviderUrl", 2: "Username"},
+		"(*EventNotifier).PublishWebLoginEvent":             {1: "Username"},
+		"(*EventNotifier).PublishVIPAuthEvent":              {1: "VIPAuthType", 2: "Username"},
+	}
+	var fieldsOf func(fn *ssa.Function, p *ssa.Parameter, depth int, out map[string]bool)
+	fieldsOf = func(fn *ssa.Function, p *ssa.Parameter, depth int, out map[string]bool) {
+		if depth > 3 || p.Referrers() == nil {
+			return
+		}
+		vals := []ssa.Value{p}
+		for _, ref := range *p.Referrers() {
+			// a parameter spilled into a cell (captured, or address taken)
+			if st, ok := ref.(*ssa.Store); ok && st.Val == ssa.Value(p) {
+				if al, isA := st.Addr.(*ssa.Alloc); isA {
+					for _, r2 := range *al.Referrers() {
+						if ld, isLd := r2.(*ssa.UnOp); isLd {
+							vals = append(vals, ld)
+						}
+					}
+				}
+			}
+		}
+		for _, v := range vals {
+			for _, ref := range *v.Referrers() {
+				switch x := ref.(type) {
+				case *ssa.Store:
+					if fa, ok := x.Addr.(*ssa.FieldAddr); ok && x.Val == v && strings.HasSuffix(km.NamedTypeOf(fa.X.Type()), "proto/eventmon.EventV0") {
+						out[fieldNameOf(fa)] = true
+					}
+				case ssa.CallInstruction:
+					g := km.StaticCallee(x.Common())
+					if g == nil || len(g.Blocks) == 0 || g.Pkg != fn.Pkg {
+						continue
+					}
+					for i, a := range x.Common().Args {
+						if a == v && i < len(g.Params) {
+							fieldsOf(g, g.Params[i], depth+1, out)
+						}
+					}
+				}
+			}
+		}
+	}
+	names := make([]string, 0, len(want))
+	for k := range want {
+		names = append(names, k)
+	}
+	sort.Strings(names)
+	for _, name := range names {
+		w := c.MustFunc(rule, "keymasterd/eventnotifier", name)
+		if w == nil {
+			continue
+		}
+		for _, idx := range []int{1, 2} {
+			fld, has := want[name][idx]
+			if !has {
+				continue
+			}
+			p := km.ParamAt(w, idx)
+			if p == nil {
+				c.R.AnchorLost(rule, sprintf("parameter %d of %s", idx, name))
+				continue
+			}
+			got := map[string]bool{}
+			fieldsOf(w, p, 0, got)
+			var gl []string
+			for f := range got {
+				gl = append(gl, f)
+			}
+			sort.Strings(gl)
+			c.R.Add(rule, km.FuncName(w), "reported "+fld+" arrives as "+fld, c.P.Pos(w.Pos()), "the parameter is stored in the event's "+fld+" field and in no other", sprintf("stored in %v", gl), len(gl) == 1 && gl[0] == fld)
+		}
 	}
 }
